@@ -4,11 +4,11 @@ CONSTANTS
   p2 = p2
   p3 = p3
   P = {p1, p2}
-  Prog <- ProgNestedQ
-  TaskProg <- TaskNestedQ
+  Prog <- ProgDefCol
+  TaskProg <- TaskNone
   NT = 2
   Cap = 1
-  MaxEp = 8
+  MaxEp = 6
   Expire = 3
   Trials = 2
   Fix = {"repin_sole"}
